@@ -266,7 +266,7 @@ func (s References) Resolve() error {
 
 // SortAndMerge sorts References and merges those which touch or overlap.
 func (s *References) SortAndMerge() {
-	if len(*s) < 2 {
+	if len(*s) == 0 {
 		return
 	}
 
